@@ -31,10 +31,15 @@ CONSTANTS
     D, MaxR, Start0, ErrMode, Reorg,
     Precond, FKinds, Emit,
     AllowBad,     \* generate inadmissible events?
+    ClassToks,    \* value-classed event tokens (ChainSync.tla ClassTok) the environment may place; at
+                  \* most one per branch (they all belong to one key)
     GapSet,       \* Extend(k), k \in GapSet: a run of k eventless blocks on top of the head in ONE step
                   \* (k taken from the boundaries of the code's constants: depth-1, depth, depth+1,
                   \* request range + 1); {} = no such steps
     MaxRuns,      \* at most this many runs in a tree
+    MinRunBase,   \* a run starts only on a block with at least this number
+    MaxFaultAt,   \* faults only in phases 0..MaxFaultAt (0: only "right after / instead of the rollback")
+    LeafHeads,    \* TRUE: the head switches only to leaves (no step back on a branch)
     MinForkNum,   \* forks start and the head switches only at blocks with at least this number (0: anywhere)
     SyncFrom,     \* Sync is called only for heads with at least this number (0: any); both shape
                   \* long chains cheaply: a linear prefix, forks and syncs near the top
@@ -54,8 +59,10 @@ vars == <<blk, canon, st, sb, stale, ok, tag, last, hist>>
    implementation that gives up on the rest of a batch shows only then);
    gap: class of the number of skipped blocks (0, 1 = some, the exact value when it is depth-1,
    depth or depth+1, 99999 when it exceeds the request range); off: the position had left the
-   canonical chain before the call *)
-NoTag == [rb |-> FALSE, gap |-> 0, off |-> FALSE, nr |-> 0, k |-> "none", at |-> 0, rel |-> {}, bx |-> FALSE]
+   canonical chain before the call;
+   emp: the call starts from the (number, empty hash) marker that a committed rollback left behind
+   when the resync after it failed *)
+NoTag == [rb |-> FALSE, gap |-> 0, off |-> FALSE, emp |-> FALSE, nr |-> 0, k |-> "none", at |-> 0, rel |-> {}, bx |-> FALSE]
 
 (* history entries; a sync entry carries the committed database state the spec predicts after the
    call (the replay continues with a concrete fault that produces it) *)
@@ -81,7 +88,8 @@ Mine(p, ev) ==
     /\ blk[p].num < MaxNum
     /\ p # canon => blk[p].num >= MinForkNum
     /\ ev # "" => /\ NumEvents(blk) < MaxEvents
-                  /\ (ev # Bad => ev \notin BranchKeys(blk, p))
+                  /\ ((ev # Bad /\ ev \notin ClassToks) => ev \notin BranchKeys(blk, p))
+                  /\ (ev \in ClassToks => BranchKeys(blk, p) \cap ClassToks = {})
                   (* keys are interchangeable: use them in order *)
                   /\ \A i \in DOMAIN KeySeq : (ev = KeySeq[i] /\ i > 1) => \E x \in DOMAIN blk : KeySeq[i - 1] \in blk[x].evs
     /\ LET nb == Append(blk, [num |-> blk[p].num + 1, par |-> p, evs |-> IF ev = "" THEN {} ELSE {ev}, len |-> 1]) IN
@@ -93,19 +101,26 @@ Mine(p, ev) ==
     /\ tag' = NoTag
     /\ UNCHANGED <<st, sb, stale, ok>>
 
-(* a run of k eventless blocks on top of the head, offered (or not) only as a whole: a large gap *)
-Extend(k) ==
+(* a run of k eventless blocks on top of a canonical block p (the tip, or a fork), offered (or not)
+   only as a whole: a large gap.  The history entry carries k in "a" and p in "at". *)
+Extend(p, k) ==
     /\ Cardinality({x \in DOMAIN blk : blk[x].len > 1}) < MaxRuns
-    /\ blk' = Append(blk, [num |-> blk[canon].num + k, par |-> canon, evs |-> {}, len |-> k])
+    /\ p \in AncSelf(blk, canon)
+    /\ blk[p].num >= MinRunBase
+    /\ p # canon => blk[p].num >= MinForkNum
+    /\ LET nb == Append(blk, [num |-> blk[p].num + k, par |-> p, evs |-> {}, len |-> k]) IN
+       /\ Cardinality(Leaves(nb)) <= MaxLeaves
+       /\ blk' = nb
     /\ canon' = Len(blk) + 1
     /\ tag' = NoTag
-    /\ last' = H("ext", k, "", "none", 0, NoPost)
+    /\ last' = H("ext", k, "", "none", p, NoPost)
     /\ hist' = Append(hist, last')
     /\ UNCHANGED <<st, sb, stale, ok>>
 
 Switch(b) ==
     /\ b \in DOMAIN blk /\ b # canon
     /\ blk[b].num >= MinForkNum
+    /\ LeafHeads => b \in Leaves(blk)
     /\ canon' = b
     /\ last' = H("switch", b, "", "none", 0, NoPost)
     /\ hist' = Append(hist, last')
@@ -143,12 +158,13 @@ Info ==
                  LET pre == IF i = 1 THEN st ELSE r0.seq[i - 1]
                      lo  == IF pre.synced.has THEN pre.synced.num + 1 ELSE Start0
                      bs  == {c \in AncSelf(blk, canon) : blk[c].num >= lo /\ blk[c].num <= r0.seq[i].synced.num}
-                 IN \E b1, b2 \in bs : Bad \in blk[b1].evs /\ blk[b1].num <= blk[b2].num /\ blk[b2].evs \ {Bad} # {}]
+                 IN \E b1, b2 \in bs : (\E e \in blk[b1].evs : ~Admissible(e)) /\ blk[b1].num <= blk[b2].num /\
+                                       (\E e \in blk[b2].evs : Admissible(e))]
 
 (* the faults that make a difference: a fault in the preamble (at = 0) matters only if a rollback
    is due, otherwise nothing happens at all *)
 SyncFaults(info) ==
-    {NoFault} \cup {[k |-> k, at |-> at] : k \in FKinds, at \in (IF info.rb THEN 0 ELSE 1)..info.nr}
+    {NoFault} \cup {[k |-> k, at |-> at] : k \in FKinds, at \in (IF info.rb THEN 0 ELSE 1)..(IF info.nr < MaxFaultAt THEN info.nr ELSE MaxFaultAt)}
 
 Sync(f, info) ==
     /\ LET r == Run(cfg, blk, canon, st, f)
@@ -157,16 +173,16 @@ Sync(f, info) ==
           /\ ok' = (C15_Failed(blk, canon, Start0, states) = {})
           /\ sb' = SbFold(sb, r.seq, 1)
           /\ stale' = (sb' # 0 /\ ~IsAnc(blk, sb', canon))
-          /\ tag' = [rb |-> info.rb, gap |-> GapClass, off |-> ~OnBranch,
+          /\ tag' = [rb |-> info.rb, gap |-> GapClass, off |-> ~OnBranch, emp |-> (st.synced.has /\ st.synced.hash = Empty),
                      nr |-> info.nr, k |-> f.k, at |-> f.at, rel |-> info.rel, bx |-> info.bx]
     /\ last' = [H("sync", 0, "", f.k, f.at, PostOf(st')) EXCEPT !.t = tag']
     /\ hist' = Append(hist, last')
     /\ UNCHANGED <<blk, canon>>
 
 Next ==
-    \/ \E p \in DOMAIN blk, ev \in {""} \cup Keys \cup (IF AllowBad THEN {Bad} ELSE {}) : Mine(p, ev)
+    \/ \E p \in DOMAIN blk, ev \in {""} \cup Keys \cup ClassToks \cup (IF AllowBad THEN {Bad} ELSE {}) : Mine(p, ev)
     \/ \E b \in DOMAIN blk : Switch(b)
-    \/ \E k \in GapSet : Extend(k)
+    \/ \E p \in DOMAIN blk, k \in GapSet : Extend(p, k)
     \/ /\ PreOK = TRUE
        /\ blk[canon].num >= SyncFrom
        /\ LET info == Info IN \E f \in SyncFaults(info) : Sync(f, info)
